@@ -393,6 +393,6 @@ SUBCHECKS = [
                   "handle:tree[i-n]": 100, "handle:tree[i:i+1][0]": 100, "handle:iteration": 100,
                   "traversed-again-after-an-aborted-traversal": 300}),
     Sub("deep", deep_case, run_deep, quick=64, thorough=96, shards_quick=4,
-        required={"limited-recursion": 8, "rows=2^8-or-2^16": 3, "deep:chain": 2, "deep:caterpillar": 2, "deep:caterpillar-leaves-numbered-last": 2,
-                  "deep:caterpillar-shuffled": 2}),
+        required={"limited-recursion": 8, "rows=2^8-or-2^16": 2, "deep:chain": 1, "deep:caterpillar": 1, "deep:caterpillar-leaves-numbered-last": 1,
+                  "deep:caterpillar-shuffled": 1}),
 ]
